@@ -379,6 +379,10 @@ def _p10(ctx):
                 # an alternative that is no load at all (a position handed in by the caller, an unknown value) is not the
                 # parent's position either
                 foreign = [s for v in vals for s in g.walk(v) if s[0] in ('param', 'unknown', 'hofarg')]
+                # .. nor is the answer of a call that is no atomic load (a handle-local cache read with Cell::get)
+                ldn = {x.rep(a.nid) for a in srcs}
+                foreign += [s for v in vals for s in g.walk(v) if s[0] == 'call' and x.rep(s[1]) not in ldn and
+                            re.search(r'Cell(::<.*>)?::(get|take|replace)$|Option(::<.*>)?::(unwrap_or\w*|take)$', g.call_name(s[1]) or '')]
                 oka = bool(vals) and bool(parent) and len(parent) == len(srcs) and not arith and not foreign
                 # the position may also be given to the new stream by a store of its own before the list that contains it
                 # is published (cells allocated once, placed anew in every attempt): then that store decides
